@@ -29,7 +29,7 @@ RULE = ("part A enumerates (session state in {NOT SELECTED, SELECTED}) x (11 inb
         "also with a slow application 'disconnected' handler while the peer reconnects at once) with seeded yield injection, "
         "half of them with the disabling thread slowed to milliseconds per yield, plus forced schedules (disable() held at its "
         "stop-flag statement until the listen/connect thread has ended); distinct by (state, stream, offset, follow-up, segmentation | scenario, seed); "
-        "non-trivial when the cut falls inside a frame or a disable races with connection set-up; plus: a cut after a burst of 1100 Linktest.req; peers that connect and leave at once; forced schedules for the race between the end of a connection (restart of the listen / connect thread) and disable()")
+        "non-trivial when the cut falls inside a frame or a disable races with connection set-up; plus: a cut after a burst of 1100 Linktest.req; peers that connect and leave at once; forced schedules for the race between the end of a connection (restart of the listen / connect thread) and disable(); a connection listener that sends from within on_connected and waits for the peer's answer (both roles, peer staying or leaving at once, two visits)")
 ASSUMPTIONS = ["the in-memory connection reproduces TcpConnection's callback contract (see lib/pipe.py)",
                "a close sequence that has not finished after the watchdog is a violation only if every thread is parked in the "
                "same untimed wait over several samples; otherwise the case is inconclusive",
@@ -40,7 +40,8 @@ LEVEL_NOTE = "Part B explores sampled, not all, offsets and schedules."
 TECHNIQUE = "exhaustive cut-point fault injection + stack-sampling blocked-forever oracle; real-socket stress with yield injection"
 SHARDS = {"quick": 16, "thorough": 16}
 TIMEOUT = {"quick": 500, "thorough": 3400}
-FLOORS = {"partA.cuts": 1500, "partA.reconnect_verified": 1500, "partB.scenarios": 20, "partA.cut_inside_frame": 500, "partA.send_while_link_down": 200}
+FLOORS = {"partA.cuts": 1500, "partA.reconnect_verified": 1500, "partB.scenarios": 20, "partA.cut_inside_frame": 500, "partA.send_while_link_down": 200,
+          "partB.listener_converses_on_connect_rounds": 16}
 
 NC = "NOT_CONNECTED"
 
@@ -801,6 +802,7 @@ def _forced_restart_race(ctx, active):
     import sys
 
     port = _free_port(ctx)
+    threads_before = set(threading.enumerate())      # (thread names carry no port: only threads born during this probe are its own)
     ep = RealEndpoint(active, port)
     fname = "tcp_client_connection" if active else "tcp_server_connection"
     needle = "__start_connect_thread()" if active else "__start_server_thread()"
@@ -868,7 +870,7 @@ def _forced_restart_race(ctx, active):
             return
         time.sleep(0.5)
         name = "secsgem_tcpClientConnection_connectThread" if active else "secsgem_tcpServerConnection_serverThread"
-        alive = [t.name for t in threading.enumerate() if t.name.startswith(name)]
+        alive = [t.name for t in threading.enumerate() if t.name.startswith(name) and t not in threads_before]
         reachable = False
         if not active:
             try:
@@ -947,7 +949,122 @@ def _peer_leaves_at_once(ctx, rounds):
         _call(ep.protocol.disable, 3.0)
 
 
+def _listener_converses_on_connect(ctx, rounds):
+    """A listener of the connection uses it from within `on_connected` (the SECS-I protocol with a GEM handler does: it sends its
+    first request and waits for the line handshake right there).  The new connection must be usable at once: what the peer
+    answers reaches `on_data` while the listener is still waiting for it - in both roles, also for a peer that answers and
+    leaves, and the endpoint then reports the end of that connection and takes the next one."""
+    import secsgem.hsms
+
+    rng = ctx.rng
+    for r in range(rounds):
+        active = (r + ctx.shard) % 2 == 0
+        port = _free_port(ctx)
+        mode = secsgem.hsms.HsmsConnectMode.ACTIVE if active else secsgem.hsms.HsmsConnectMode.PASSIVE
+        conn = secsgem.hsms.HsmsSettings(connect_mode=mode, address="127.0.0.1", port=port, t5=1).create_connection()
+        conn.select_timeout = 0.05
+        got = threading.Event()
+        seen = {"in_listener": 0, "late": 0, "order": []}
+        lock = threading.Lock()
+        listening = {"on": False}
+
+        def on_data(data):
+            if b"pong" in data["data"]:
+                with lock:
+                    seen["in_listener" if listening["on"] else "late"] += 1
+                got.set()
+
+        def on_connected(_data):
+            with lock:
+                seen["order"].append("connected")
+            listening["on"] = True
+            got.clear()
+            conn.send_data(b"ping")
+            ok = got.wait(2.5)
+            listening["on"] = False
+            with lock:
+                seen["order"].append("listener-done:" + ("answered" if ok else "no-answer"))
+
+        def on_disconnected(_data):
+            with lock:
+                seen["order"].append("disconnected")
+
+        conn.on_data.register(on_data)
+        conn.on_connected.register(on_connected)
+        conn.on_disconnected.register(on_disconnected)
+        leave_at_once = rng.random() < 0.4
+        visits = 2
+        wit = {"mode": "active" if active else "passive", "peer": "answers ping with pong" + (" and leaves at once" if leave_at_once else ""),
+               "scenario": "a listener sends from within on_connected and waits for the answer"}
+        lsock = None
+        try:
+            if active:
+                lsock = socket.socket()
+                lsock.setsockopt(socket.SOL_SOCKET, socket.SO_REUSEADDR, 1)
+                lsock.bind(("127.0.0.1", port))
+                lsock.listen(2)
+                lsock.settimeout(4.0)
+            conn.enable()
+            answered = 0
+            for v in range(visits):
+                c = None
+                t0 = time.monotonic()
+                while c is None and time.monotonic() - t0 < 6.0:
+                    try:
+                        c = lsock.accept()[0] if active else socket.create_connection(("127.0.0.1", port), timeout=1.0)
+                    except OSError:
+                        time.sleep(0.02)
+                if c is None:
+                    ctx.violation("B:no-connection:listener-converses-on-connect", {**wit, "visit": v, "events": list(seen["order"])})
+                    return
+                c.settimeout(3.0)
+                try:
+                    buf = b""
+                    while len(buf) < 4:
+                        chunk = c.recv(16)
+                        if not chunk:
+                            break
+                        buf += chunk
+                    if buf[:4] == b"ping":
+                        c.sendall(b"pong")
+                        answered += 1
+                except OSError:
+                    pass
+                if not leave_at_once:
+                    time.sleep(0.05)
+                c.close()
+                # the end of this connection is reported before the next visit
+                end = time.monotonic() + 5
+                while time.monotonic() < end and seen["order"].count("disconnected") < v + 1:
+                    time.sleep(0.005)
+            ctx.count("partB.listener_converses_on_connect_rounds")
+            ctx.case(("B-listener-converses", r, active, leave_at_once), nontrivial=True)
+            with lock:
+                order = list(seen["order"])
+                in_listener, late = seen["in_listener"], seen["late"]
+            full = {**wit, "events": order, "answers_delivered_while_listener_waited": in_listener, "answers_delivered_later": late,
+                    "peer_answered": answered}
+            if answered == visits and in_listener < visits:
+                ctx.violation("B:new-connection-not-usable-while-its-listeners-run", full)
+                return
+            want = []
+            for _v in range(visits):
+                want += ["connected", "listener-done:answered", "disconnected"]
+            if answered == visits and order[:len(want)] != want:
+                ctx.violation("B:connection-events-out-of-order:listener-converses-on-connect", {**full, "expected": want})
+                return
+        finally:
+            th, ok, _box = _call(conn.disable, 5.0)
+            if lsock is not None:
+                lsock.close()
+            if not ok:
+                ctx.violation("B:disable-blocked-forever:listener-converses-on-connect" if stuck.blocked_forever([th], watch=0.5) or _spinning([th])
+                              else "B:disable-did-not-return:listener-converses-on-connect", wit)
+                return
+
+
 def part_b(ctx, n):
+    _listener_converses_on_connect(ctx, 2 if ctx.quick else 12)
     if ctx.shard < 4:
         _forced_disable_race(ctx, active=ctx.shard % 2 == 0)
     if 4 <= ctx.shard < 8 or ctx.nshards < 8:
